@@ -1,0 +1,44 @@
+// Copyright (c) The Thanos Community Authors.
+// Licensed under the Apache License 2.0.
+
+//go:build verif
+
+package execution
+
+import (
+	"sync"
+
+	"github.com/prometheus/prometheus/promql/parser"
+	"github.com/prometheus/prometheus/storage"
+
+	"github.com/thanos-community/promql-engine/execution/model"
+	engstore "github.com/thanos-community/promql-engine/execution/storage"
+	"github.com/thanos-community/promql-engine/query"
+)
+
+// OperatorWrapper, when set (before any query is created), is given every
+// operator built by newOperator together with the expression it evaluates and
+// the query options it was built with, and returns the operator to use in its
+// place. It exists for runtime verification only (build tag `verif`).
+var OperatorWrapper func(op model.VectorOperator, expr parser.Expr, opts *query.Options) model.VectorOperator
+
+// verifSkip marks selector pools (one per query under construction) for which
+// the next entry into newOperator must fall through to the original body.
+var verifSkip sync.Map
+
+func verifIntercept(expr parser.Expr, pool *engstore.SelectorPool, opts *query.Options, hints storage.SelectHints) (model.VectorOperator, bool, error) {
+	wrap := OperatorWrapper
+	if wrap == nil {
+		return nil, false, nil
+	}
+	if _, skip := verifSkip.LoadAndDelete(pool); skip {
+		return nil, false, nil
+	}
+	verifSkip.Store(pool, struct{}{})
+	op, err := newOperator(expr, pool, opts, hints)
+	verifSkip.Delete(pool)
+	if err != nil {
+		return nil, true, err
+	}
+	return wrap(op, expr, opts), true, nil
+}
